@@ -179,5 +179,41 @@ def table_rule(ctx, crate):
                     if flow.backward(gl, it, lambda e: flow.is_field_named(e, "aliases")) is not None:
                         ex = [(x, y) for x in blocks for y in gl.succs[x] if y not in blocks]
                         ok = len(ex) == 1
+        if not ok and not gl.loops():
+            # no loop at all: an iterator chain over the table, consumed by collect()
+            r0 = gl.expand_vars(strip_sites(gl.return_expr()))
+            calls0 = {last_seg(x[1]) for x in mir.subexprs(r0) if x[0] == "call"}
+            ok = "collect" in calls0 and any(flow.is_field_named(x, "aliases") for x in mir.subexprs(r0)) and \
+                not (calls0 & {"take", "take_while", "skip", "skip_while", "step_by", "nth", "find", "filter", "filter_map"})
         ctx.ob("R17-3", gl.path, "the alias listing iterates the whole table (single exit on exhaustion)", ok,
                key="R17-3|%s|all" % gl.path, crate=crate.kind)
+        # every entry reaches the result: pushed into the returned Vec on every iteration, not funnelled through a
+        # keyed container (two names may share a derived key)
+        ret = mir.root_local_expr(gl.expand_vars(strip_sites(gl.return_expr()))) if hasattr(gl, "return_expr") else None
+        kept = False
+        for h, blocks in gl.loops().items():
+            nb = [bb for bb in blocks if gl.term(bb)["k"] == "call" and last_seg(gl.callee(gl.term(bb))) == "next"]
+            pushes = {bb for bb in blocks if gl.term(bb)["k"] == "call" and last_seg(gl.callee(gl.term(bb))) == "push"
+                      and "Vec" in gl.callee(gl.term(bb))}
+            if not nb or not pushes or not gl.succs[nb[0]]:
+                continue
+            some_t = [tgt for tgt, atom, val in gl.switch_edges(gl.succs[nb[0]][0]) if val == "Some"]
+            pushed_vecs = {mir.root_local_expr(gl.expand_vars(strip_sites(gl.call_args(p)[0]))) for p in pushes}
+            if some_t and flow.must_pass(gl, some_t[0], pushes, {h}, within=blocks):
+                kept = ret in pushed_vecs or any(
+                    flow.backward(gl, gl.return_expr(), lambda z, v=v: z[0] == "var" and z[1] == v) is not None
+                    for v in pushed_vecs if v is not None)
+        if not kept:
+            # iterator form: aliases.iter().map(..).collect() without a lossy adaptor
+            LOSSY = {"filter", "skip", "take", "step_by", "filter_map", "dedup", "dedup_by_key", "take_while", "skip_while"}
+            r = gl.expand_vars(strip_sites(gl.return_expr()))
+            calls = {last_seg(x[1]) for x in mir.subexprs(r) if x[0] == "call"}
+            keyed = any(last_seg(x[1]) in ("insert", "entry", "into_values", "into_keys", "from_iter", "extend", "values")
+                        and any(k in x[1] for k in ("BTreeMap", "HashMap", "BTreeSet", "HashSet"))
+                        for x in mir.subexprs(r) if x[0] == "call")
+            kept = "collect" in calls and not (calls & LOSSY) and not keyed and \
+                any(flow.is_field_named(x, "aliases") for x in mir.subexprs(r))
+        ctx.ob("R17-3", gl.path, "every alias of the table is an entry of the listing (none merged or dropped)", kept,
+               key="R17-3|%s|every-entry" % gl.path, crate=crate.kind,
+               detail=None if kept else "entries pass through a keyed container or a conditional push: two aliases whose "
+               "derived keys coincide (names differing only in case) yield one line")
